@@ -120,8 +120,10 @@ def address_alternation(ctx: Ctx, f: Func) -> Optional[str]:
 def r01_1(ctx: Ctx, rep: Report) -> Dict[str, List[str]]:
     rep.rule("R01.1")
     orders: Dict[str, List[str]] = {}
+    from .normalise import normalised
+
     for q in PARSERS:
-        f = ctx.func(q)
+        f = normalised(ctx, ctx.func(q), "tailcalls")  # a shared "find, strip, name the groups" builder is read in place
         rep.instance()
         rx, pieces = regex_pieces(ctx, f)
         try:
@@ -149,6 +151,16 @@ def r01_1(ctx: Ctx, rep: Report) -> Dict[str, List[str]]:
         for n in own_nodes(f.node):
             if isinstance(n, ast.Assign) and isinstance(n.targets[0], ast.Name) and isinstance(n.value, ast.ListComp) and "strip" in src(n.value):
                 items_name = n.targets[0].id
+        # {key: value.strip() for key, value in zip((<keys>), <group tuple>)}: key i is group i
+        for n in own_nodes(f.node):
+            if isinstance(n, ast.DictComp) and len(n.generators) == 1 and not n.generators[0].ifs and isinstance(n.generators[0].target, ast.Tuple) and len(n.generators[0].target.elts) == 2 and src(n.key) == src(n.generators[0].target.elts[0]):
+                it = n.generators[0].iter
+                if isinstance(it, ast.Call) and src(it.func) == "zip" and len(it.args) == 2 and isinstance(it.args[1], ast.Name):
+                    kv = ctx.folder.fold(it.args[0], f.module)
+                    if isinstance(kv, (tuple, list)) and all(isinstance(x, str) for x in kv):
+                        items_name = it.args[1].id
+                        for i, k in enumerate(kv):
+                            data_keys[k] = ast.Subscript(value=ast.Name(id=items_name, ctx=ast.Load()), slice=ast.Constant(value=i), ctx=ast.Load())
         named_index: Dict[str, int] = {}
         match_name = None
         if items_name is None:
